@@ -371,6 +371,8 @@ def c17(res, tier, rng, wd):
     scs = e1.gen_c17(rng, 0, thorough)
     scs += e1.at_levels(scs, [[3, 2, 2], [1, 0, 0]] + ([[2, 1, 1], [0, 2, 0]] if thorough else []), len(scs))
     run_e1(res, "C17", scs, wd, "c17")
+    # the same discipline on a real serial device: RTU server task <-> pseudo-terminal, opened by tokio_serial (no hook)
+    run_pty_server(res, "C17", e1.gen_pty_server(rng, thorough), wd, "c17pty")
     res.assumptions = E1_ASSUME
     return res.finish(rule="unit ids (quick: boundary set + 8 random, thorough: all 256) x {valid read, valid writes, handler failure, "
                            "over limit, malformed, unknown function} x handler maps of 0..3 units x RTU/TCP framing, with read-back of what "
@@ -426,6 +428,22 @@ def sample_e2(scs, k=2):
         out.append({"tag": s["tag"], "framing": s["framing"], "queue": s["queue"], "max_timeouts": s["max_timeouts"],
                     "first_steps": [json.dumps(x)[:140] for x in s["steps"][:5]]})
     return out
+
+
+def run_pty_server(res, pid, scs, wd, name):
+    """the production RTU server task on a real serial device (pseudo-terminal): no hook involved"""
+    res.samples += sample_of(scs)
+    for sc, r in e1.check_pty_server(res, scs, wd, name):
+        obj = e1.replay_obj(pid, sc, r)
+        obj["engine"] = "e1-pty"
+        res.violation(e1.describe_rejection(sc, r), obj)
+
+
+def _replay_pty(res, pid, obj, wd):
+    run_pty_server(res, pid, [obj["scenario"]], wd, "replay")
+
+
+REPLAYERS["e1-pty"] = _replay_pty
 
 
 def run_rtu_task(res, pid, scs, wd, name):
